@@ -192,3 +192,40 @@ Proof.
   destruct (re_split_no_panic (find_from r) (find_from_bounds r) true s) as [l Hl].
   rewrite Hl. cbn [rbind]. eauto.
 Qed.
+
+(* ---- packaged statements used by Properties/C10.v ---------------------------------- *)
+Theorem chars_mode_safe s x y : valid_utf8 s = true ->
+  (exists r, substr_chars s x = Ok r /\ valid_utf8 r = true) /\
+  (exists r, substr_len_chars s x y = Ok r /\ valid_utf8 r = true).
+Proof. intros H. split; [exact (substr_chars_safe s x H)|exact (substr_len_chars_safe s x y H)]. Qed.
+
+Theorem ascii_modes_agree s : is_ascii s = true ->
+  (forall x, substr_chars s x = substr_bytes s x) /\
+  (forall x y, substr_len_chars s x y = substr_len_bytes s x y) /\
+  (forall t, builtin_index true s t = builtin_index false s t) /\
+  builtin_length true s = builtin_length false s /\
+  (forall ff, engine_bounds ff -> builtin_match ff true s = builtin_match ff false s).
+Proof.
+  intros H. split; [|split; [|split; [|split]]].
+  - intros x. exact (ascii_substr s x H).
+  - intros x y. exact (ascii_substr_len s x y H).
+  - intros t. exact (ascii_index s t H).
+  - exact (ascii_length s H).
+  - intros ff Hb. exact (ascii_match ff Hb s H).
+Qed.
+
+Theorem engine_hypotheses_hold r :
+  engine_bounds (find_from r) /\ engine_step (find_from r) /\
+  (forall s a b, find r s = Some (a, b) -> on_rune_boundaries s a b) /\
+  (forall s, all_matches_gen (find_from r) s = all_matches r s).
+Proof.
+  split; [exact (find_from_bounds r)|]. split; [exact (find_from_step r)|].
+  split; [exact (find_on_rune_boundaries r)|exact (all_matches_gen_is_all_matches r)].
+Qed.
+
+Theorem sub_gsub_re r repl s :
+  sub_re r false repl s =
+  Ok (weave s (expand_repl repl) (firstn 1 (all_matches r s)) 0, Z.min 1 (zlen (all_matches r s))) /\
+  sub_re r true repl s =
+  Ok (weave s (expand_repl repl) (all_matches r s) 0, zlen (all_matches r s)).
+Proof. split; [exact (sub_is_first_of_gsub_re r repl s)|exact (gsub_spec_re r repl s)]. Qed.
